@@ -387,6 +387,10 @@ fn check_bcf_inner(t: &dyn Tagger, env: &Env, g: &Generated, decoded: &dyn Fn() 
     // (4) VCF text of the BCF-read record == VCF text of the original (modulo trailing missing)
     match io::vcf_write_record(header, &rb) {
         Ok(_) if has_reserved_nan => t.tag("vcf-text-skipped-reserved-nan"),
+        // a genotype without alleles has no VCF text (the writer emits an empty field)
+        Ok(_) if g.rec.samples.iter().flatten().any(|v| matches!(v, Some(Val::Gt(a)) if a.is_empty())) => {
+            t.tag("vcf-text-skipped-empty-genotype")
+        }
         Ok(orig) => {
             for (who, out) in [("eager", io::vcf_write_record(h_read, &back)), ("lazy", io::vcf_write_record(h_read, &lazy))] {
                 match out {
